@@ -193,6 +193,12 @@ def random_frame(draw, cat_vars=("f", "g", "h"), num_vars=("x", "z"), int_vars=(
             v = v + 10 ** draw(st.integers(2, 5))
         elif style == "smallint":
             v = np.round(v * 3)
+        elif style in ("intdtype", "symmetric"):
+            ranks = np.argsort(np.argsort(v))  # distinct integers, symmetric around zero
+            v = (ranks - (n - 1) / 2.0) * (2 if n % 2 == 0 else 1)
+            if style == "intdtype":
+                cols.append({"name": name, "kind": "int", "values": [int(t) for t in v]})
+                continue
         cols.append({"name": name, "kind": "float", "values": [round(float(t), 6) for t in v]})
     for j, name in enumerate(pos_vars):
         cols.append({"name": name, "kind": "float", "values": [round(float(t), 6) for t in weyl(n, 3 + j, seed, 0.5, 6.0)]})
